@@ -221,6 +221,12 @@ def run(ctx, chk):
     null_rule(prog, chk)
     block_write_rule(prog, chk)
     sibling_null_rule(prog, chk)
+    # R12.11 the four Argon2 backends fill the pseudo_rands array (malloc'ed with segment_length entries by argon2_initialize) with the
+    # same index discipline: the scalar control skeletons of their generate_addresses() helpers agree (E7). A backend that stores
+    # whole 128-entry address blocks writes up to 1016 bytes past the array whenever segment_length is not a multiple of 128.
+    cm.sibling_skeleton_rule(prog, chk, "R12.11", [("generate_addresses", "argon2-fill-block-ref"), ("generate_addresses", "argon2-fill-block-ssse3"),
+                                                    ("generate_addresses", "argon2-fill-block-avx2"), ("generate_addresses", "argon2-fill-block-avx512f")],
+                             {0: "INST", 1: "POS", 2: "RANDS"}, ("llvm.memcpy.p0i8.p0i8.i64", "memcpy"), floor_shapes=4)
     # R12.10 the assembly fast paths of the big-number helpers touch exactly the `len` bytes their guard established (C14's R14.8
     # engine, extent part): a 64-bit limb on the last 4 bytes of a 12-byte nonce reads and writes 4 bytes past it
     from . import c14
